@@ -44,6 +44,11 @@ func newImporter(tree *MutableTree, version int64) (*Importer, error) {
 	if tree.ndb.latestVersion > 0 {
 		return nil, fmt.Errorf("found database at version %d, must be 0", tree.ndb.latestVersion)
 	}
+	// LoadVersion refuses a store whose first version is below the configured initial version: refuse
+	// it here, before anything is written, instead of at the end of Commit when the import is durable
+	if initial := tree.ndb.opts.InitialVersion; initial > 0 && uint64(version) < initial {
+		return nil, fmt.Errorf("imported version %d is earlier than the initial version %d", version, initial)
+	}
 	if !tree.IsEmpty() {
 		return nil, errors.New("tree must be empty")
 	}
